@@ -7,7 +7,7 @@
    totality ("formatting succeeds") and the layout chosen by the `pretty` crate.
    `c12_idem_partial` is partial: idempotence is reduced to the two facts F1/F2 about the
    implementation, which are validated per run, not proved. *)
-From Cedar Require Import Fmt FmtProofs.
+From Cedar Require Import Fmt FmtProofs FmtLexProofs.
 
 (* the executable validator decides the specification *)
 Theorem c12_validator_sound_complete : forall inp out, fmt_okb inp out = true <-> fmt_ok inp out.
@@ -56,6 +56,21 @@ Theorem c12_idem_partial :
     forall a, clex a <> None -> comment_free a -> f (f a) = f a.
 Proof. exact idempotent. Qed.
 Print Assumptions c12_idem_partial.
+
+(* the lexer is compositional over a newline: texts that lex separately lex, joined by a newline, to
+   the concatenation of their items (proved by induction over the mode automaton, all texts) ... *)
+Theorem c12_lex_join :
+  forall s1 s2 l1 l2, clex s1 = Some l1 -> clex s2 = Some l2 ->
+    clex (s1 ++ 10%N :: s2)%list = Some (l1 ++ l2)%list.
+Proof. exact clex_join. Qed.
+Print Assumptions c12_lex_join.
+
+(* ... hence formatting policy by policy and joining with newlines (what policies_str_to_pretty does,
+   end-of-file comments included) preserves tokens and comments if each piece does *)
+Theorem c12_join_preserves :
+  forall a a' b b', fmt_ok a a' -> fmt_ok b b' -> fmt_ok (a ++ 10%N :: b)%list (a' ++ 10%N :: b')%list.
+Proof. exact fmt_ok_join. Qed.
+Print Assumptions c12_join_preserves.
 
 (* Non-vacuity *)
 Example c12_example_ok :
